@@ -771,12 +771,14 @@ class QCumulantFlow(FlowInterface.FlowInterface):
         # full_event_quantities = Qn,M,n2_corr,n2_corr_err,ebe_2p_corr,Q2n,n4_corr,n4_corr_err,ebe_4p_corr
         pn = self.__Qn(phi_bin_poi, self.n_)
         mp = np.array([len(i) for i in phi_bin_poi])
-        mq = np.array([len(i) for i in phi_bin])
+        # all particles of the event are reference particles, the overlap of
+        # the particles of interest with them are the particles of interest
+        mq = np.array([len(i) for i in phi_bin_poi])
         Qn = np.array(full_event_quantities[0])
         M = np.array(full_event_quantities[1])
         if self.k_ == 4:
-            qn = self.__Qn(phi_bin, self.n_)
-            q2n = self.__Qn(phi_bin, 2 * self.n_)
+            qn = self.__Qn(phi_bin_poi, self.n_)
+            q2n = self.__Qn(phi_bin_poi, 2 * self.n_)
 
         # compute Eq. (28) Ref. [2]
         corr2_ev = (pn * Qn.conj() - mq) / (mp * M - mq)
